@@ -3,6 +3,7 @@ package main
 import (
 	"fmt"
 	"go/ast"
+	"go/constant"
 	"go/token"
 	"go/types"
 	"regexp"
@@ -216,7 +217,11 @@ func localRootedAt(info *types.Info, fd *ast.FuncDecl, v, recv types.Object, dep
 	if v == nil || depth > 3 {
 		return "", false
 	}
-	if _, isPtr := v.Type().Underlying().(*types.Pointer); !isPtr {
+	// a pointer aliases its pointee, a slice header copy aliases the elements; a struct or
+	// array value is a copy
+	switch v.Type().Underlying().(type) {
+	case *types.Pointer, *types.Slice:
+	default:
 		return "", false
 	}
 	rooted := func(e ast.Expr) (string, bool) {
@@ -598,9 +603,172 @@ func ruleOPS3(c *Ctx) []Obligation {
 				o.Detail = "reads " + strings.Join(targets, ", ") + " in order"
 			}
 		}
+		if o.Verdict == OK {
+			if bad, pos := c.slotDiscipline(c.funcDecl(succs)); bad != "" {
+				o.Verdict, o.Detail, o.Pos = VIOL, bad, c.pos(pos)
+			}
+		}
 		obs = append(obs, o)
 	}
 	return obs
+}
+
+// slotDiscipline: when a result list is built by indexed stores into a pre-sized slice instead of
+// appends, the slots written must not overlap: constant-index stores cover 0..n-1 once each, and a
+// bulk fill (a helper or loop that writes dst[i] for the i-th element of another list, or copy)
+// starts at offset n. Returns a description of the first overlap.
+func (c *Ctx) slotDiscipline(fd *ast.FuncDecl) (string, token.Pos) {
+	if fd == nil || fd.Body == nil {
+		return "", token.NoPos
+	}
+	info := c.declPkg[fd].TypesInfo
+	// pre-sized locals: v := make([]T, n[, cap]) with a non-zero length argument
+	sized := map[types.Object]bool{}
+	ast.Inspect(fd.Body, func(n ast.Node) bool {
+		as, ok := n.(*ast.AssignStmt)
+		if !ok || len(as.Lhs) != 1 || len(as.Rhs) != 1 {
+			return true
+		}
+		call, ok := unparen(as.Rhs[0]).(*ast.CallExpr)
+		if !ok || exprString(call.Fun) != "make" || len(call.Args) < 2 {
+			return true
+		}
+		if tv := info.Types[call.Args[1]]; tv.Value != nil && tv.Value.String() == "0" {
+			return true
+		}
+		if id, ok := as.Lhs[0].(*ast.Ident); ok {
+			sized[info.ObjectOf(id)] = true
+		}
+		return true
+	})
+	if len(sized) == 0 {
+		return "", token.NoPos
+	}
+	// a fill helper: a function whose first parameter is a slice it stores into at the index of a
+	// range over another parameter
+	isFill := func(f *types.Func) bool {
+		hfd := c.funcDecl(f)
+		if hfd == nil || hfd.Body == nil {
+			return false
+		}
+		hi := c.declPkg[hfd].TypesInfo
+		sig := f.Type().(*types.Signature)
+		if sig.Params().Len() < 2 {
+			return false
+		}
+		dst := sig.Params().At(0)
+		found := false
+		ast.Inspect(hfd.Body, func(n ast.Node) bool {
+			rs, ok := n.(*ast.RangeStmt)
+			if !ok {
+				return true
+			}
+			k, ok := rs.Key.(*ast.Ident)
+			if !ok {
+				return true
+			}
+			ast.Inspect(rs.Body, func(m ast.Node) bool {
+				if as, ok := m.(*ast.AssignStmt); ok {
+					for _, l := range as.Lhs {
+						if ix, ok := unparen(l).(*ast.IndexExpr); ok {
+							if d, ok := unparen(ix.X).(*ast.Ident); ok && hi.ObjectOf(d) == dst {
+								if ki, ok := unparen(ix.Index).(*ast.Ident); ok && hi.ObjectOf(ki) == hi.ObjectOf(k) {
+									found = true
+								}
+							}
+						}
+					}
+				}
+				return true
+			})
+			return true
+		})
+		return found
+	}
+	// destination expression → (object, offset)
+	destOf := func(e ast.Expr) (types.Object, int64, bool) {
+		e = unparen(e)
+		if sl, ok := e.(*ast.SliceExpr); ok {
+			id, ok := unparen(sl.X).(*ast.Ident)
+			if !ok || !sized[info.ObjectOf(id)] {
+				return nil, 0, false
+			}
+			off := int64(0)
+			if sl.Low != nil {
+				tv := info.Types[sl.Low]
+				if tv.Value == nil {
+					return info.ObjectOf(id), -1, true
+				}
+				off, _ = constant.Int64Val(constant.ToInt(tv.Value))
+			}
+			return info.ObjectOf(id), off, true
+		}
+		if id, ok := e.(*ast.Ident); ok && sized[info.ObjectOf(id)] {
+			return info.ObjectOf(id), 0, true
+		}
+		return nil, 0, false
+	}
+	singles := map[types.Object]map[int64]token.Pos{}
+	bad, badPos := "", token.NoPos
+	report := func(s string, pos token.Pos) {
+		if bad == "" {
+			bad, badPos = s, pos
+		}
+	}
+	ast.Inspect(fd.Body, func(n ast.Node) bool {
+		switch n := n.(type) {
+		case *ast.AssignStmt:
+			for _, l := range n.Lhs {
+				ix, ok := unparen(l).(*ast.IndexExpr)
+				if !ok {
+					continue
+				}
+				id, ok := unparen(ix.X).(*ast.Ident)
+				if !ok || !sized[info.ObjectOf(id)] {
+					continue
+				}
+				tv := info.Types[ix.Index]
+				if tv.Value == nil {
+					continue
+				}
+				k, _ := constant.Int64Val(constant.ToInt(tv.Value))
+				obj := info.ObjectOf(id)
+				if singles[obj] == nil {
+					singles[obj] = map[int64]token.Pos{}
+				}
+				if _, dup := singles[obj][k]; dup {
+					report(fmt.Sprintf("slot %d of %s is stored twice", k, id.Name), n.Pos())
+				}
+				singles[obj][k] = n.Pos()
+			}
+		case *ast.CallExpr:
+			var dst ast.Expr
+			if exprString(n.Fun) == "copy" && len(n.Args) == 2 {
+				dst = n.Args[0]
+			} else if f := calleeOf(info, n); f != nil && f.Pkg() != nil && c.isLLVM(f.Pkg().Path()) && len(n.Args) >= 2 && isFill(f) {
+				dst = n.Args[0]
+			}
+			if dst == nil {
+				return true
+			}
+			obj, off, ok := destOf(dst)
+			if !ok {
+				return true
+			}
+			nSingles := int64(0)
+			for k, pos := range singles[obj] {
+				if pos < n.Pos() {
+					nSingles++
+					_ = k
+				}
+			}
+			if off >= 0 && off != nSingles {
+				report(fmt.Sprintf("the result is built by indexed stores: %d slot(s) of %s are stored individually before the bulk fill %s, which starts at offset %d: the fill overwrites slot %d and the last slot stays nil — a successor is lost and a nil block is reported", nSingles, obj.Name(), exprString(n), off, off), n.Pos())
+			}
+		}
+		return true
+	})
+	return bad, badPos
 }
 
 // ---------------------------------------------------------------------------
